@@ -32,7 +32,10 @@ RULE = ('Exhaustive enumeration: every (route, method) of the API x caller '
         're-loaded configurations (rule: "!" and rule: "@") in which every '
         'operation is tried by the admin resp. a role-less caller; plus four '
         'overrides of the base rule admin_api, which is the documented rule '
-        'of no operation and must therefore change nothing; plus the '
+        'of no operation and must therefore change nothing; plus request '
+        'pairs in one process (a role-less caller right after an '
+        'administrator, identified by name only) and policy files edited '
+        'while the service runs (a removed override stops applying); plus the '
         'no-credentials row under auth_strategy=keystone. Oracle: / is open; '
         'no credentials => 401; callers outside {admin, service} (reshaper: '
         '{service}; GET /usages: also reader of the queried project) never '
@@ -246,7 +249,13 @@ CALLERS = {
     'member': dict(token='u4:proj-a', roles=['member', 'reader']),
     'admin': dict(token='admin:proj-adm', roles=['admin']),
     'service': dict(token='svc:proj-svc', roles=['service']),
+    # callers that send no X-Roles header at all: the noauth2 middleware
+    # derives the roles from the user name (only the user "admin" gets one)
+    'admin-by-name': dict(token='admin', roles=None),
+    'user-by-name': dict(token='u9:proj-a', roles=None),
 }
+MATRIX_CALLERS = ['none', 'no-roles', 'reader-own', 'reader-other', 'member',
+                  'admin', 'service']
 SECRETS = [P1, P2, C1, AGG, 'pv-fix-one', 'pv-fix-two', 'proj-a', 'user-a']
 
 
@@ -256,8 +265,9 @@ def allowed(method, route, caller):
     if route == '/reshaper':
         return caller == 'service'
     if route == '/usages':
-        return caller in ('admin', 'service', 'reader-own', 'member')
-    return caller in ('admin', 'service')
+        return caller in ('admin', 'service', 'reader-own', 'member',
+                          'admin-by-name')
+    return caller in ('admin', 'service', 'admin-by-name')
 
 
 def i_ver_op(ver, m, route):
@@ -323,7 +333,7 @@ def run_worker(ctx):
     # ---------------------------------------------------- default policy
     cells = []
     for (m, route, path, body, missing) in OPS:
-        for caller in CALLERS:
+        for caller in MATRIX_CALLERS:
             cells.append((m, route, path, body, caller, 'existing'))
             if missing:
                 cells.append((m, route, missing, body, caller, 'missing'))
@@ -380,8 +390,26 @@ def run_worker(ctx):
                        'path': path, 'body': body, 'caller': caller,
                        'variant': variant, 'version': ver})
     if ctx.idx == 0:
+        # what one request established must not carry over to the next one:
+        # a caller without any role right after an administrator, both
+        # identified by name only (no X-Roles header)
+        for (m, route, path, body, missing) in OPS:
+            for first, second in (('admin-by-name', 'user-by-name'),
+                                  ('admin', 'user-by-name'),
+                                  ('service', 'no-roles')):
+                svc.restore(snap)
+                send(svc, None, m, path, body, first)
+                stats.evaluations += 1
+                try:
+                    check_cell(ctx, svc, None, snap, before, inj, m, route,
+                               path, body, second, 'after-' + first,
+                               'default')
+                except Violation as v:
+                    record(v, {'kind': 'sequence', 'method': m,
+                               'route': route, 'first': first,
+                               'second': second})
         # the version document is open, even without credentials
-        for caller in CALLERS:
+        for caller in MATRIX_CALLERS:
             svc.restore(snap)
             r = send(svc, None, 'GET', '/', None, caller)
             stats.evaluations += 1
@@ -470,6 +498,47 @@ def run_worker(ctx):
                 except Violation as v:
                     record(v, {'kind': 'override', 'rule': rule,
                                'check': chk, 'method': m, 'route': route})
+        # ---- the policy file is edited while the service runs: an override
+        # that is removed stops granting / denying (oslo.policy re-reads the
+        # file when it changes; no restart involved)
+        if ctx.idx == 1 % ctx.nworkers:
+            for j, rule in enumerate(sorted(RULES)):
+                if j % 4 and not ctx.thorough:
+                    continue
+                (m, route) = RULES[rule][0]
+                op = [o for o in OPS if (o[0], o[1]) == (m, route)][0]
+                _m, _r, path, body, _missing = op
+                for chk, caller in (('@', 'no-roles'), ('!', 'admin')):
+                    if route == '/reshaper' and chk == '!':
+                        caller = 'service'
+                    pf = os.path.join(tmpdir, 'policy-live-%d.yaml' % j)
+                    with open(pf, 'w') as f:
+                        f.write('"%s": "%s"\n' % (rule, chk))
+                    os.utime(pf, (1000000000 + j, 1000000000 + j))
+                    app, _conf = svc.make_app(policy_file=pf)
+                    svc.restore(snap)
+                    r1 = send(svc, app, m, path, body, caller)
+                    with open(pf, 'w') as f:
+                        f.write('{}\n')
+                    os.utime(pf, (1000000100 + j, 1000000100 + j))
+                    svc.restore(snap)
+                    r2 = send(svc, app, m, path, body, caller)
+                    stats.evaluations += 2
+                    stats.nontriv(stable_hash(['live-edit', rule, chk]))
+                    granted1 = r1.status not in (401, 403)
+                    granted2 = r2.status not in (401, 403)
+                    want1, want2 = (chk == '@'), (chk != '@')
+                    if (granted1, granted2) != (want1, want2):
+                        record(Violation(
+                            {'clause': 'override-removed-from-policy-file-'
+                                       'still-in-force'
+                             if granted1 == want1 else
+                             'override-in-policy-file-not-applied',
+                             'rule': rule, 'check': chk},
+                            {'with_override': r1.status,
+                             'after_removal': r2.status, 'caller': caller}),
+                            {'kind': 'override', 'rule': rule, 'check': chk,
+                             'method': m, 'route': route})
         # ---- overriding a rule that is NOT the documented rule of any
         # operation (the deprecated base rule admin_api, which no documented
         # default refers to) grants and denies nothing
